@@ -1,5 +1,6 @@
 import VfsModel.Path
 import Driver.Codec
+import Driver.WorldDriver
 open Vfs Vfs.Driver
 
 def stepPath (toks : List String) : Option String :=
@@ -19,20 +20,24 @@ def stepPath (toks : List String) : Option String :=
     pure (match extensionInternal p with | none => "none" | some e => "some " ++ encStr e)
   | _ => none
 
-def step (line : String) : String :=
+def step (s : DState) (line : String) : String × DState :=
   let toks := (line.trimAscii.toString.splitOn " ").filter (· ≠ "")
   match stepPath toks with
-  | some out => out
-  | none => "bad-op"
+  | some out => (out, s)
+  | none =>
+    match stepWorld s toks with
+    | some r => r
+    | none => ("bad-op", s)
 
-partial def loop (h : IO.FS.Stream) (out : IO.FS.Stream) : IO Unit := do
+partial def loop (h : IO.FS.Stream) (out : IO.FS.Stream) (s : DState) : IO Unit := do
   let line ← h.getLine
   if line.isEmpty then return ()
-  out.putStrLn (step line)
-  loop h out
+  let (o, s') := step s line
+  out.putStrLn o
+  loop h out s'
 
 def main : IO Unit := do
   let stdin ← IO.getStdin
   let stdout ← IO.getStdout
-  loop stdin stdout
+  loop stdin stdout {}
   stdout.flush
